@@ -41,6 +41,7 @@ _sign = st.sampled_from([1.0, -1.0])
 _ratio = st.sampled_from([1e-2, 1e-4, 1e-6])
 _cscale = st.sampled_from([1.0, 1.0, EV_A3])
 _small = st.integers(-3, 3)
+_mult = st.sampled_from([1, 1, 1, 2, 3])
 _uvw = st.lists(_small, min_size=3, max_size=3).filter(any)
 _fam = st.sampled_from(['unit', 'cubic', 'cubic', 'hexagonal', 'hexagonal', 'orthorhombic', 'tetragonal', 'monoclinic',
                         'triclinic'])
@@ -103,7 +104,8 @@ def orient_specs():
                     'via': 'axes' if draw(_sel) < 3 else 'transform'}
         fp = draw(_famparams(draw(_fam)))
         uvw = draw(_uvw)
-        hkl = _perp_plane(uvw, draw(_uvw))          # integer plane indices with h u + k v + l w = 0
+        k = draw(_mult)                               # planes need not be given in lowest terms
+        hkl = [k * v for v in _perp_plane(uvw, draw(_uvw))]      # integer plane indices with h u + k v + l w = 0
         return {'kind': 'miller', 'box': fp, 'uvw': uvw, 'hkl': hkl,
                 'four': bool(fp['family'] == 'hexagonal' and draw(_bool))}
     return _o()
